@@ -216,9 +216,12 @@ def map_and_norm_checks(ck, rng):
 
 def e2e_checks(ck, rng, quick):
     from pyscf import gto
-    cases = [("H", 1, True), ("He", 0, False), ("H2", 0, True)]
+    # Ne@pad: a nucleus exactly on the coordinate grids are padded with ((1e-4, 1e-4, 1e-4) Bohr, zero weight): anything singular
+    # in the distance to a nucleus is evaluated at r = 0 at the padding points
+    cases = [("H", 1, True), ("He", 0, False), ("H2", 0, True), ("Ne@pad", 0, False)]
     for name, spin, unres in cases:
-        mol = gto.M(atom="%s 0 0 0" % name if name != "H2" else "H 0 0 0; H 0 0 8.0", basis="sto-3g" if name != "He" else "6-31g", spin=spin, verbose=0, unit="Bohr")
+        atom = {"H2": "H 0 0 0; H 0 0 8.0", "Ne@pad": "Ne 1e-4 1e-4 1e-4"}.get(name, "%s 0 0 0" % name)
+        mol = gto.M(atom=atom, basis="sto-3g" if name != "He" else "6-31g", spin=spin, verbose=0, unit="Bohr")
         for nldf, sdmx, ev, mode in (("j", "SDMX", "rbf", "SEP"), ("i", "none", "kernel", "NPOL"), ("k", "G1", "rbf", "SEP"), ("ij", "none", "spinrbf", "POL")):
             cfg = {"sl": "npa", "nldf": nldf, "sdmx": sdmx, "plan": "gaussian", "interp": "onsite_direct", "eval": ev, "mode": mode, "mix": "xmix_c"}
             try:
